@@ -84,6 +84,8 @@ LEAVES = {
     "any": dict(cn="any", dns=ANY_DNS, ips=ANY_IPS),
     "proxy": dict(cn="proxy.test", dns=["proxy.test"]),
     "client": dict(cn="client", dns=["client.test"]),
+    # an IP address spelled out in a dNSName entry (and no iPAddress entry): never a match for the IP host (RFC 6125 / 9110)
+    "ipdns4": dict(cn="ipdns4", dns=["10.0.0.5"]),
 }
 
 if __name__ == "__main__":
@@ -92,10 +94,12 @@ if __name__ == "__main__":
     for caname in ("good", "bad"):
         ck, cc = make_ca(f"verif sim CA {caname}", 0x100 + (caname == "bad"))
         open(os.path.join(HERE, f"ca_{caname}.pem"), "wb").write(pem_cert(cc))
+        open(os.path.join(HERE, f"ca_{caname}.key"), "wb").write(pem_key(ck))  # (kept so that leaves can be added without re-issuing everything)
         for lname, spec in LEAVES.items():
             serial += 1
             k, c = make_leaf(ck, cc, spec["cn"], spec.get("dns", ()), spec.get("ips", ()), serial)
             fn = lname if caname == "good" else "bad_" + lname
             open(os.path.join(HERE, fn + ".pem"), "wb").write(pem_cert(c) + pem_key(k))
             open(os.path.join(HERE, fn + ".der"), "wb").write(c.public_bytes(serialization.Encoding.DER))
+    open(os.path.join(HERE, "ca_both.pem"), "wb").write(open(os.path.join(HERE, "ca_good.pem"), "rb").read() + open(os.path.join(HERE, "ca_bad.pem"), "rb").read())
     print("ok", sorted(os.listdir(HERE)))
